@@ -21,11 +21,11 @@ EXPLANATION = (
 
 TEMPLATE = [
     "method = 'add'",
-    "op = operator.le",
-    "if not self._absolute and self.invert:\n    method = 'subtract'\n    op = operator.ge",
+    "backwards = not self._absolute and self.invert",
+    "if backwards:\n    method = 'subtract'",
     "start, end = (self.start, self.end)",
     "i = amount",
-    "while op(start, end):\n    yield start\n    start = getattr(self.start, method)(**{unit: i})\n    i += amount",
+    "while not (_is_after(end, start) if backwards else _is_after(start, end)):\n    yield start\n    start = getattr(self.start, method)(**{unit: i})\n    i += amount",
 ]
 
 
@@ -75,7 +75,8 @@ def _range_tabulate(ctx, m) -> bool | None:
                     s0, e0, inv, ab = b, a, True, False
                 else:
                     s0, e0, inv, ab = a, b, True, True        # the constructor has swapped the bounds of an absolute interval
-                glob = {"operator": minieval.Stub(le=operator.le, ge=operator.ge, lt=operator.lt, gt=operator.gt), "Iterator": None}
+                glob = {"operator": minieval.Stub(le=operator.le, ge=operator.ge, lt=operator.lt, gt=operator.gt), "Iterator": None,
+                        "datetime": _dt.datetime, "date": _dt.date, "timezone": _dt.timezone, "timedelta": _dt.timedelta}
                 funcs = {st.name: st for st in m.top() if isinstance(st, ast.FunctionDef)}
                 iv = minieval.Obj(_methods=meths, _props=props, _ctor=None, _natives={}, start=val(s0), end=val(e0), _start=val(s0), _end=val(e0),
                                   _absolute=ab, _invert=inv, invert=inv, absolute=ab, _types=(_dt.timedelta,), _truth=(s0 != e0))        # an Interval is a timedelta: false when empty
@@ -110,6 +111,43 @@ def _range_tabulate(ctx, m) -> bool | None:
                         r = minieval.call(meths["__contains__"], [iv, native], {}, {**funcs, "$globals": glob})
                         if bool(r) != inside and cls == "DateTime":
                             bad.append(f"{label}: `{probe.isoformat(' ')} in interval` is {r} for a native datetime")
+        # a repeated hour (02:00-03:00 twice): the values of one zone are ordered by the standard library on their wall clock, the bounds must
+        # be compared as instants - the expected sequence is computed on instants
+        H = _dt.timedelta(hours=1)
+        wld = wallstub.World(dm, "DateTime", transition=("repeat", D(2021, 10, 31, 3), H), extra=dam.methods("Date"))
+        funcs = {st.name: st for st in m.top() if isinstance(st, ast.FunctionDef)}
+        glob = {"operator": minieval.Stub(le=operator.le, ge=operator.ge, lt=operator.lt, gt=operator.gt), "Iterator": None,
+                "datetime": _dt.datetime, "date": _dt.date, "timezone": _dt.timezone, "timedelta": _dt.timedelta}
+        for (wa, fa), (wb, fb), unit, amt in [((D(2021, 10, 31, 1, 45), 0), (D(2021, 10, 31, 2, 15), 1), "minutes", 30), ((D(2021, 10, 31, 0, 30), 0), (D(2021, 10, 31, 4, 30), 0), "hours", 1),
+                                               ((D(2021, 10, 31, 2, 30), 0), (D(2021, 10, 31, 2, 30), 1), "minutes", 20), ((D(2021, 10, 31, 2, 50), 0), (D(2021, 10, 31, 2, 10), 1), "minutes", 7),
+                                               ((D(2021, 10, 31, 2, 10), 1), (D(2021, 10, 31, 3, 40), 0), "minutes", 45)]:
+            A, B = wld.datetime(wa, fa), wld.datetime(wb, fb)
+            ia, ib = wld.instant(A), wld.instant(B)
+            for mode in ("forward", "inverted", "inverted-absolute"):
+                if mode == "forward":
+                    s0, e0, i0, i1, inv, ab = A, B, ia, ib, False, False
+                elif mode == "inverted":
+                    s0, e0, i0, i1, inv, ab = B, A, ib, ia, True, False
+                else:
+                    s0, e0, i0, i1, inv, ab = A, B, ia, ib, True, True
+                iv = minieval.Obj(_methods=meths, _props=props, _ctor=None, _natives={}, start=s0, end=e0, _start=s0, _end=e0, _absolute=ab, _invert=inv, invert=inv, absolute=ab,
+                                  _types=(_dt.timedelta,), _truth=(i0 != i1))
+                sign = -1 if (inv and not ab) else 1
+                want, k = [], 0
+                while True:
+                    v = i0 + sign * k * amt * _dt.timedelta(**{unit: 1})
+                    if (v > i1) if sign > 0 else (v < i1):
+                        break
+                    want.append(wld.from_instant(v))
+                    k += 1
+                n += 1
+                got = minieval.call(meths["range"], [iv, unit, amt], {}, {**funcs, "$globals": glob})
+                gk = [(vars(o)["_wall"], vars(o)["fold"] if wld.ambiguous(vars(o)["_wall"]) else 0) for o in got]
+                wk = [(w_, f_ if wld.ambiguous(w_) else 0) for w_, f_ in want]
+                if gk != wk:
+                    show = lambda xs: [f"{w_.time()}{'*' if f_ else ''}" for w_, f_ in xs][:7]      # noqa: E731
+                    bad.append(f"interval {wa.time()}{'*' if fa else ''} .. {wb.time()}{'*' if fb else ''} of 2021-10-31, hour 02 repeated (* = second pass) ({mode}).range({unit!r}, {amt}): "
+                               f"{show(gk)} ({len(gk)} values; expected {show(wk)}, {len(wk)} values)")
     except wallstub.ERRORS + (ValueError,) as e:
         ctx.unverified("RANGE.tabulated", "Interval.range", f"outside the checker's interpreter: {type(e).__name__}: {e}", m.loc(meths["range"]))
         return None
@@ -165,15 +203,17 @@ def run(ctx) -> None:
                 kinds.append(f"aug:{nun(s.target)}{type(s.op).__name__}{nun(s.value)}")
         if restructured:
             kinds = None
-        cand = nun(lp.test.args[0]) if isinstance(lp.test, ast.Call) and len(lp.test.args) == 2 else "?"
+        NEW_TEST = "not (_is_after(end, start) if backwards else _is_after(start, end))"       # the bounds compared as instants (fix dd0bbb6)
+        new_form = nun(lp.test) == NEW_TEST
+        cand = nun(lp.test.args[0]) if isinstance(lp.test, ast.Call) and len(lp.test.args) == 2 else "start" if new_form else "?"
         cnt = [nun(s.target) for s in lp.body if isinstance(s, ast.AugAssign)]
         cnt = cnt[0] if cnt else "?"
         if kinds is not None:
           ctx.ob("RANGE.order", "Interval.range/loop-body", kinds == [f"yield:{cand}", f"assign:{cand}", f"aug:{cnt}Addamount"],
                f"loop body {kinds}; must yield the tested candidate, compute the next one, then advance i by amount", m.loc(lp))
-        bound_ok = isinstance(lp.test, ast.Call) and nun(lp.test.func) == "op" and len(lp.test.args) == 2
+        bound_ok = (isinstance(lp.test, ast.Call) and nun(lp.test.func) == "op" and len(lp.test.args) == 2) or new_form
         if bound_ok:
-            endv = nun(lp.test.args[1])
+            endv = "end" if new_form else nun(lp.test.args[1])
             pre = {}
             for s in core.body_no_doc(fn):
                 if isinstance(s, ast.Assign) and isinstance(s.targets[0], ast.Tuple) and isinstance(s.value, ast.Tuple):
@@ -194,6 +234,8 @@ def run(ctx) -> None:
     init = {nun(s.targets[0]): nun(s.value) for s in core.body_no_doc(fn) if isinstance(s, ast.Assign) and isinstance(s.targets[0], ast.Name)}
     ok = init.get("method") == "'add'" and init.get("op") == "operator.le" and len(sel) == 1 and \
         nun(sel[0].test) == "not self._absolute and self.invert" and sorted(nun(s) for s in sel[0].body) == ["method = 'subtract'", "op = operator.ge"]
+    ok = ok or (init.get("method") == "'add'" and init.get("backwards") == "not self._absolute and self.invert" and len(sel) == 1 and nun(sel[0].test) == "backwards"
+                and [nun(s) for s in sel[0].body] == ["method = 'subtract'"] and len(loops) == 1 and nun(loops[0].test) == "not (_is_after(end, start) if backwards else _is_after(start, end))")
     if restructured and not ok:
         ctx.unverified("RANGE.pairing", "Interval.range/direction", "direction selected in another form (helper / conditional expression)", m.loc(fn))
     else:
